@@ -7,7 +7,8 @@ NAMES = {
  "C01": ("R5-C01-computed-field-name-analysed-in-object-scope",
          "an ordinary object literal whose computed field name mentions a local of the same object, or self / $ / super when the literal is not nested in another object: accepted statically, the evaluator panics (`variable not found`, unwrap of None)", None),
  "C02": ("R5-C02-negative-string-slice-bounds-against-byte-length",
-         "a string slice with a negative start or end on a string with a non-ASCII character (the mechanism of R3-C18, found again from the C02 side)", None),
+         "a string slice with a negative start or end on a string with a non-ASCII character (the mechanism of R3-C18, found again from the C02 side)",
+         "C18 reports it (C18/slarr, C18/slr); C02 itself passes: its reference interpreter treats negative slice bounds as outside the model, so the slices profile compares non-negative bounds only (left as is: the clause is C18's)"),
  "C03": ("R5-C03-comprehension-field-environment-not-traced",
          "an object comprehension with at least one field: its iteration environments become false roots; bound to a local (a cycle through its own environment) the heap never returns to baseline", None),
  "C04": ("R5-C04-object-assertions-get-an-uncached-environment",
@@ -15,7 +16,8 @@ NAMES = {
  "C05": ("R5-C05-yaml-all-hidden-object-emitted-as-nothing",
          "std.manifestYamlDoc/Stream of a value containing an object whose fields are all hidden: emitted as nothing, decodes to null", None),
  "C06": ("R5-C06-parsehex-scale-factor-unchecked-product",
-         "std.parseHex with 257..287 significant digits (parseOctal 343..383): returns inf", None),
+         "std.parseHex with 257..287 significant digits (parseOctal 343..383): returns inf",
+         "first version: C20 reported it (C20/parseHex/accepted-overflow), C06 itself passed (no producer fed long digit strings to the radix parsers). Added to C06's producers: parseInt / parseHex / parseOctal / parseJson on digit strings of every length around the overflow threshold of each radix (300..320, 250..300, 335..395 digits)"),
  "C07": ("R5-C07-extension-keeps-cached-values-of-plain-fields",
          "an object value read on its own (a self/super-dependent plain field forced) and then used as an operand of `+` whose other operand changes what that field depends on: the combined object keeps the operand's value", None),
  "C08": ("R5-C08-strings-ordered-by-utf16-code-unit",
@@ -24,6 +26,30 @@ NAMES = {
          "`e in super` where no object encloses it lexically: accepted; evaluated it yields false or panics depending on the interner", None),
  "C10": ("R5-C10-flattendeeparray-frame-released-before-the-descent",
          "std.flattenDeepArray on arrays nested deeper than the limit, or on an array that contains itself (re-creates the repaired defect F22 by moving one line)", None),
+ "C11": ("R5-C11-removekey-result-inherits-the-checked-flag",
+         "a shared object with an assertion that depends on a field, used by an earlier successful request, then std.objectRemoveKey of that field: the assertion is not re-run for the new object",
+         "first version: MISSED by C11 and C07 (no request / no law removed a key from an object that had already been used). C11 gained a shared object with a field-dependent assertion and five requests that use it, remove or override the field; C07's used-operand law now also covers std.objectRemoveKey on an operand that was manifested before"),
+ "C12": ("R5-C12-eval-call-deep-evaluates-the-function-not-the-result",
+         "a program whose root is a function (called with TLAs / defaults) run with -y or -m, with an element or visible field that is not a constant: panic (exit 101)", None),
+ "C13": ("R5-C13-import-resolution-cached-by-the-literal-string",
+         "two importers in different directories using the same relative import string that resolves to different files for them: the second gets the first one's file (patch.diff rebased after fix 65f599f; the original is kept next to it)", None),
+ "C14": ("R5-C14-effective-exponent-sum-overflows",
+         "one number literal with a negative exponent within a few units of i64::MAX (or beyond u64) and at least two fractional digits: `attempt to add with overflow` (debug) / wrong value (release)",
+         "first version: C06 reported it (its literal list has such exponents), C14 itself passed (number texts of at most 7 characters). C14 gained 540 number texts with exponents around and beyond 64 bits x integer / one-digit / many-digit fractions, and its model saturates astronomical exponents like the grammar's value does"),
+ "C15": ("R5-C15-comprehension-locals-on-the-wrong-side-of-the-field",
+         "an object comprehension with object locals before and after the field: the two lists are swapped in the tree, the printed tree does not re-parse to an equal one", None),
+ "C16": ("R5-C16-crop-split-underflows-at-max-trace-0",
+         "--max-trace 0 (or set_max_trace(0)) on any diagnostic with a non-empty trace: `0 - 1` underflows, panic", None),
+ "C17": ("R5-C17-quicksort-partition-orders-minus-zero-before-zero",
+         "number keys containing both 0 and -0 in one quick-sorted slice with a 0 earlier than a -0: not stable; std.set keeps the wrong representative",
+         "first version: MISSED (no two keys were equal without being identical). New key kind: the smallest number key is written 0 at even and -0 at odd positions, through all sweeps; the set algebra writes it -0 on the left and 0 on the right"),
+ "C18": ("R5-C18-splitlimitr-takes-the-left-split-when-the-limit-covers-all",
+         "std.splitLimitR with a separator that overlaps itself, overlapping occurrences in the subject and a limit >= the number of matches", None),
+ "C19": ("R5-C19-hex-prefix-not-counted-in-the-zero-padding",
+         "%x / %X with the # flag, the 0 flag and a width larger than sign + digits: two characters too wide", None),
+ "C20": ("R5-C20-last-high-surrogate-does-not-start-a-pair",
+         "std.parseJson of a string with an escaped surrogate pair whose high unit is exactly \\uDBFF: rejected",
+         "first version: MISSED (one surrogate pair in the token alphabet). Added every sequence of <= 3 \\u escapes over 18 units at the borders of the surrogate ranges (d7ff d800 d801 dafe db7f db80 dbfe dbff dc00 dc01 dffe dfff e000 ...), as string, key and array element"),
 }
 def read_log(pid):
     results = {}
